@@ -35,19 +35,19 @@ Print Assumptions C23_resolution_terminates.
 (* ---- witnesses *)
 (* The alias-cycle repair is conservative: with the guard removed from the current source facts, rule-reference
    resolution either exhausts the recursion budget or gives exactly the outcome of the current source. *)
-Theorem C23_alias_repair_conservative : forall (fuel : nat) (rs : list rule),
-  resolve_rule_refs (with_alias_guard src_cfg None) fuel rs = Crash KRecursion
-  \/ resolve_rule_refs (with_alias_guard src_cfg None) fuel rs = resolve_rule_refs src_cfg fuel rs.
-Proof. exact (fun fuel rs => alias_repair_conservative src_cfg _ fuel rs eq_refl). Qed.
+Theorem C23_alias_repair_conservative : forall (o : oracles) (fuel : nat) (t : tree),
+  resolve_rule_refs (with_alias_guard src_cfg None) o fuel t = Crash KRecursion
+  \/ resolve_rule_refs (with_alias_guard src_cfg None) o fuel t = resolve_rule_refs src_cfg o fuel t.
+Proof. exact (fun o fuel t => alias_repair_conservative src_cfg _ o fuel t eq_refl). Qed.
 Print Assumptions C23_alias_repair_conservative.
 
 (* ... and a reference that the unguarded code resolves with some budget is resolved identically, for every larger
    budget, by the guarded code: the guard rejects only what never terminated. *)
-Theorem C23_guard_rejects_only_divergence : forall (rs : list rule) (fuel : nat) (n : list N),
-  follow pinned_cfg rs fuel [] n <> Crash KRecursion ->
+Theorem C23_guard_rejects_only_divergence : forall (o : oracles) (t : tree) (fuel : nat) (n : list N),
+  follow pinned_cfg o t fuel [] n <> Crash KRecursion ->
   forall fuel', fuel' >= fuel ->
-    follow pinned_cfg rs fuel' [] n = follow (with_alias_guard pinned_cfg (Some CSemantic)) rs fuel' [] n.
-Proof. exact (fun rs => unguarded_never_recovers pinned_cfg rs CSemantic eq_refl). Qed.
+    follow pinned_cfg o t fuel' [] n = follow (with_alias_guard pinned_cfg (Some CSemantic)) o t fuel' [] n.
+Proof. exact (fun o t => unguarded_never_recovers pinned_cfg o t CSemantic eq_refl). Qed.
 Print Assumptions C23_guard_rejects_only_divergence.
 
 (* ---- witnesses: the grammars and oracles are defined in Proofs/FrontProofs.v (section Witnesses) *)
@@ -61,7 +61,10 @@ Example C23_nonvacuous :
   front src_cfg all_ok 5 g_cycle = TxErr CSemantic WRuleRef /\
   front src_cfg bad_escape 5 g_escape = TxErr CSyntax WEscape /\
   front src_cfg textx_lang 5 g_textx = TxErr CSemantic WClsRef /\
-  front src_cfg all_ok 5 GSyntaxError = TxErr CSyntax WParse.
+  front src_cfg all_ok 5 GSyntaxError = TxErr CSyntax WParse /\
+  front src_cfg lang_found 5 g_qualified_alias = Ok /\
+  front src_cfg all_ok 5 g_unknown_ns = TxErr CSemantic WRuleRef /\
+  front src_cfg all_ok 5 g_boolmany = TxErr CSemantic WBoolMany.
 Proof. vm_compute. repeat split; reflexivity. Qed.
 Print Assumptions C23_nonvacuous.
 
@@ -100,3 +103,18 @@ Print Assumptions C23_refuted_pinned_escape.
 Theorem C23_refuted_pinned_textx_reference : exists o g, has_import g = false /\ front pinned_cfg o 5 g = Crash KType.
 Proof. exists textx_lang, g_textx. vm_compute. split; reflexivity. Qed.
 Print Assumptions C23_refuted_pinned_textx_reference.
+
+(* Rule references may be fully qualified names.  Two further crash sources, guarded in the current source: *)
+(* (a) an alias of a rule of a referenced language, when _determine_rule_type looks the target class up by its
+       unqualified rule_name instead of taking rule._tx_class (the code before fix 97c0ef9): KeyError *)
+Theorem C23_refuted_qualified_alias_lookup : exists o g, has_import g = false /\
+  front (with_ruletype_by_class src_cfg false) o 5 g = Crash KKey.
+Proof. exists lang_found, g_qualified_alias. vm_compute. split; reflexivity. Qed.
+Print Assumptions C23_refuted_qualified_alias_lookup.
+
+(* (b) a qualified rule reference with an unknown namespace, when `rule_name in metamodel` does not catch the
+       KeyError of the namespace lookup *)
+Theorem C23_refuted_contains_without_keyerror_handler : exists o g, has_import g = false /\
+  front (with_contains src_cfg false) o 5 g = Crash KKey.
+Proof. exists all_ok, g_unknown_ns. vm_compute. split; reflexivity. Qed.
+Print Assumptions C23_refuted_contains_without_keyerror_handler.
